@@ -12,7 +12,13 @@ fn block_info_occupied_contract() {
     let v: u8 = kani::any();
     let hf_mul: i32 = kani::any();
     let which: u8 = kani::any();
-    let Ok(dct_select) = TransformType::try_from(v) else { return };
+    let dct_select = match TransformType::try_from(v) {
+        Ok(t) => t,
+        Err(e) => {
+            std::mem::forget(e); // (its drop glue is recursive through io::Error)
+            return;
+        }
+    };
     let b = match which {
         0 => BlockInfo::Uninit,
         1 => BlockInfo::Occupied,
